@@ -113,7 +113,7 @@ App(p, h) ==
     LET s == snt1(h)  ok == h.out.ok IN
     CASE h.out.set /\ h.par.entry = "crash" -> p \in {"C09", "C10", "C19"}     \* the process died (panic in a goroutine of the code)
       [] h.out.set /\ h.par.entry = "lab" -> p = "C13"
-      [] h.out.set /\ h.par.entry = "doc" -> p \in {"C16", "C17", "C18"}
+      [] h.out.set /\ h.par.entry = "doc" -> p \in {"C16", "C17", "C18"} \/ (p = "C08" /\ h.par.docin.bound_us > 0)
       [] h.out.set /\ h.par.entry = "cache" -> p = "C18"
       [] h.out.set /\ h.par.entry = "pubip" -> p = "C18" \/ p = "C08"
       [] h.out.set /\ h.par.entry = "alloc" -> p = "C11"
@@ -137,7 +137,8 @@ Holds(p, h) ==
       [] h.par.entry = "lab" -> C13_lab(h)
       [] h.par.entry = "doc" -> (CASE p = "C16" -> C16_json(h.out) /\ Conforms(h.par.docin, h.out.doc)
                                    [] p = "C17" -> h.out.panic = "" /\ C17_json(h.par.docin, h.out)
-                                   [] p = "C18" -> C18_json(h.par.docin, h.out) [] OTHER -> TRUE)
+                                   [] p = "C18" -> C18_json(h.par.docin, h.out) /\ C18_reprobe(h.par.docin, h.got)
+                                   [] p = "C08" -> C08_doc(h.par.docin, h.out) [] OTHER -> TRUE)
       [] h.par.entry = "cache" -> C18_cache(h.par.ttl_ms, h.got)
       [] h.par.entry = "pubip" -> (CASE p = "C18" -> (~h.par.expect.stalls => C18_pub(h.par.expect, h.got, h.out))
                                      [] p = "C08" -> C08_pub(h.par.expect, h.got, h.out) [] OTHER -> TRUE)
